@@ -542,8 +542,14 @@ class Node:
             peer_socket = socket.socket(socket.AF_INET, socket.SOCK_STREAM)
             peer_socket.setblocking(False)
 
-            conn = PeerConnection(peer.ip_addresses, peer.port,
-                                  PEER_SEND, self.interrupt_write)
+            try:
+                conn = PeerConnection(peer.ip_addresses, peer.port,
+                                      PEER_SEND, self.interrupt_write)
+            except RuntimeError:
+                # not possible to start the connection's threads; nothing
+                # will ever refer to the socket again
+                peer_socket.close()
+                raise
             conn.state = PEER_CONNECTING
             conn.node_name = peer.node_name
             conn.origin_host = self.origin_host
@@ -571,8 +577,14 @@ class Node:
             peer_socket = sctp.sctpsocket_tcp(socket.AF_INET)
             peer_socket.setblocking(False)
 
-            conn = PeerConnection(peer.ip_addresses, peer.port,
-                                  PEER_SEND, self.interrupt_write)
+            try:
+                conn = PeerConnection(peer.ip_addresses, peer.port,
+                                      PEER_SEND, self.interrupt_write)
+            except RuntimeError:
+                # not possible to start the connection's threads; nothing
+                # will ever refer to the socket again
+                peer_socket.close()
+                raise
             conn.state = PEER_CONNECTING
             conn.node_name = peer.node_name
             conn.origin_host = self.origin_host
